@@ -110,6 +110,7 @@ pub fn render_hydrate(v: &automerge::hydrate::Value) -> String {
             for (k, mv) in m.iter() {
                 parts.push(format!("{:?}:{}{}", k, render_hydrate(&mv.value), if mv.conflict { "!" } else { "" }));
             }
+            parts.sort();
             format!("{{{}}}", parts.join(","))
         }
         H::List(l) => {
@@ -133,6 +134,7 @@ pub fn render_hydrate_plain(v: &automerge::hydrate::Value) -> String {
             for (k, mv) in m.iter() {
                 parts.push(format!("{:?}:{}", k, render_hydrate_plain(&mv.value)));
             }
+            parts.sort();
             format!("{{{}}}", parts.join(","))
         }
         H::List(l) => {
@@ -321,5 +323,175 @@ impl Obs {
     pub fn child_ids(&self) -> Vec<String> {
         let _ = is_obj;
         self.objs.keys().cloned().collect()
+    }
+}
+
+/// the reachable objects (through every conflict value) with their types
+pub fn reachable<D: ReadDoc>(doc: &D, heads: Option<&[ChangeHash]>) -> Vec<(ObjId, ObjType)> {
+    let mut out = vec![];
+    let mut todo = vec![(ROOT, ObjType::Map)];
+    let mut seen = BTreeSet::new();
+    while let Some((id, ty)) = todo.pop() {
+        if !seen.insert(id.to_string()) {
+            continue;
+        }
+        let (_, children) = observe_obj(doc, &id, ty, heads);
+        out.push((id, ty));
+        todo.extend(children);
+    }
+    out.sort_by_key(|a| a.0.to_string());
+    out
+}
+
+/// A second battery of reads (winner reads, ranges, values, hydrate, parents, cursors), rendered
+/// as lines so two documents can be compared read by read.
+pub fn extras<D: ReadDoc>(doc: &D, heads: Option<&[ChangeHash]>) -> BTreeMap<String, String> {
+    use automerge::{CursorPosition, MoveCursor};
+    let mut out = BTreeMap::new();
+    for (obj, ty) in reachable(doc, heads) {
+        let o = obj.to_string();
+        out.insert(
+            format!("{} hydrate", o),
+            match doc.hydrate(&obj, heads) {
+                Ok(v) => render_hydrate(&v),
+                Err(e) => format!("ERR {:?}", e),
+            },
+        );
+        out.insert(format!("{} type", o), format!("{:?}", doc.object_type(&obj)));
+        let par = match heads {
+            Some(h) => doc.parents_at(&obj, h),
+            None => doc.parents(&obj),
+        };
+        out.insert(
+            format!("{} parents", o),
+            match par {
+                Ok(p) => format!(
+                    "{:?}",
+                    p.map(|p| format!("{}/{:?}/{}", p.obj, p.prop, p.visible)).collect::<Vec<_>>()
+                ),
+                Err(e) => format!("ERR {:?}", e),
+            },
+        );
+        let vals: Vec<String> = match heads {
+            Some(h) => doc.values_at(&obj, h).map(|(v, id)| format!("{}@{}", render_value(&v), id)).collect(),
+            None => doc.values(&obj).map(|(v, id)| format!("{}@{}", render_value(&v), id)).collect(),
+        };
+        match ty {
+            ObjType::Map | ObjType::Table => {
+                out.insert(format!("{} values", o), format!("{:?}", vals));
+                let keys: Vec<String> = match heads {
+                    Some(h) => doc.keys_at(&obj, h).collect(),
+                    None => doc.keys(&obj).collect(),
+                };
+                for k in keys.iter().map(|s| s.as_str()).chain(["a", "b", "zz"]) {
+                    let g = match heads {
+                        Some(h) => doc.get_at(&obj, k, h),
+                        None => doc.get(&obj, k),
+                    };
+                    out.insert(
+                        format!("{} get {:?}", o, k),
+                        match g {
+                            Ok(Some((v, id))) => format!("{}@{}", render_value(&v), id),
+                            Ok(None) => "None".into(),
+                            Err(e) => format!("ERR {:?}", e),
+                        },
+                    );
+                }
+                let bounds = ["", "a", "b", "c", "m", "zz"];
+                for lo in bounds.iter() {
+                    for hi in bounds.iter() {
+                        if lo > hi {
+                            continue;
+                        }
+                        let r = lo.to_string()..hi.to_string();
+                        let items: Vec<String> = match heads {
+                            Some(h) => doc
+                                .map_range_at(&obj, r, h)
+                                .map(|i| format!("{}={}@{}{}", i.key, render_vref(&i.value), i.id(), if i.conflict { "!" } else { "" }))
+                                .collect(),
+                            None => doc
+                                .map_range(&obj, r)
+                                .map(|i| format!("{}={}@{}{}", i.key, render_vref(&i.value), i.id(), if i.conflict { "!" } else { "" }))
+                                .collect(),
+                        };
+                        out.insert(format!("{} map_range {:?}..{:?}", o, lo, hi), format!("{:?}", items));
+                    }
+                }
+            }
+            ObjType::List | ObjType::Text => {
+                let len = match heads {
+                    Some(h) => doc.length_at(&obj, h),
+                    None => doc.length(&obj),
+                };
+                if ty == ObjType::List {
+                    out.insert(format!("{} values", o), format!("{:?}", vals));
+                }
+                for i in 0..len + 1 {
+                    let g = match heads {
+                        Some(h) => doc.get_at(&obj, i, h),
+                        None => doc.get(&obj, i),
+                    };
+                    out.insert(
+                        format!("{} get {}", o, i),
+                        match g {
+                            Ok(Some((v, id))) => format!("{}@{}", render_value(&v), id),
+                            Ok(None) => "None".into(),
+                            Err(e) => format!("ERR {:?}", e),
+                        },
+                    );
+                }
+                if ty == ObjType::List && len <= 6 {
+                    for lo in 0..=len {
+                        for hi in lo..=len + 1 {
+                            let items: Vec<String> = match heads {
+                                Some(h) => doc
+                                    .list_range_at(&obj, lo..hi, h)
+                                    .map(|i| format!("{}={}@{}{}", i.index, render_vref(&i.value), i.id(), if i.conflict { "!" } else { "" }))
+                                    .collect(),
+                                None => doc
+                                    .list_range(&obj, lo..hi)
+                                    .map(|i| format!("{}={}@{}{}", i.index, render_vref(&i.value), i.id(), if i.conflict { "!" } else { "" }))
+                                    .collect(),
+                            };
+                            out.insert(format!("{} list_range {}..{}", o, lo, hi), format!("{:?}", items));
+                        }
+                    }
+                }
+                // cursors
+                for after in [true, false] {
+                    for pi in 0..len + 2 {
+                        let mv = if after { MoveCursor::After } else { MoveCursor::Before };
+                        let p = if pi < len {
+                            CursorPosition::Index(pi)
+                        } else if pi == len {
+                            CursorPosition::Start
+                        } else {
+                            CursorPosition::End
+                        };
+                        let label = format!("{} cursor {:?} {:?}", o, p, mv);
+                        match doc.get_cursor_moving(&obj, p, heads, mv) {
+                            Ok(c) => {
+                                let pos = doc.get_cursor_position(&obj, &c, heads);
+                                out.insert(label, format!("{} -> {:?}", c, pos));
+                            }
+                            Err(e) => {
+                                out.insert(label, format!("ERR {:?}", e));
+                            }
+                        }
+                    }
+                }
+            }
+        }
+    }
+    out
+}
+
+pub fn render_vref(v: &automerge::ValueRef<'_>) -> String {
+    match v {
+        automerge::ValueRef::Object(t) => render_objtype(*t).to_string(),
+        automerge::ValueRef::Scalar(s) => {
+            let sv: ScalarValue = s.to_owned().into();
+            render_scalar(&sv)
+        }
     }
 }
